@@ -184,6 +184,18 @@ func genSoup(out *bufio.Writer, rng *rand.Rand, count int) int {
 		emitAsm(out, fmt.Sprintf("u%d", n), "soup", cfg, text, "-", nil)
 		n++
 	}
+	// the smallest inputs: nothing, every single byte, byte order marks, lone keywords
+	{
+		tiny := [][]byte{{}, {0xef, 0xbb, 0xbf}, {0xef, 0xbb, 0xbf, '\n'}, {0xef, 0xbb}, {0xff, 0xfe}, []byte(";"), []byte(";name"), []byte(";strategy"), []byte(";assert"),
+			[]byte("\r"), []byte("\r\n"), []byte(","), []byte("end"), []byte("org"), []byte("for"), []byte("rof"), []byte("equ"), []byte("x"), []byte("x:"), []byte("\xef\xbb\xbfmov 0, 1\n")}
+		for b := 0; b < 256; b++ {
+			tiny = append(tiny, []byte{byte(b)})
+		}
+		for _, t := range tiny {
+			emit(gmars.ConfigNOP94, t)
+			emit(gmars.ConfigKOTH88, t)
+		}
+	}
 	// the corpus itself under every preset of its dialect family
 	for _, f := range corpus {
 		for _, cfg := range []gmars.SimulatorConfig{gmars.ConfigNOP94, gmars.ConfigKOTH88, gmars.ConfigICWS88, gmars.ConfigNopNano} {
